@@ -144,7 +144,7 @@ def _pre_configs(tier):
 
 
 @harness("pre_irrigation", modules=["aquacrop.solution.pre_irrigation"], props=["C01", "C03", "C04", "C06", "C12", "C13", "C16"],
-         configs=_pre_configs, goals=["pre-irrigation-applied"])
+         configs=_pre_configs, round_enum=64, goals=["pre-irrigation-applied"])
 def h_pre(ctx, cfg):
     soil, base = build_profile(cfg["layers"], cfg["dzs"])
     prof = prof_for(ctx, base)
